@@ -5,12 +5,14 @@
 // written by set() and then taken for a torn tail by load(): the replay stops there and the log is
 // truncated at that offset, which destroys the big value and all later records for good.
 //
-// History: set before; set big (exactly MAX_VALUE_LENGTH); set after; remove gone; clean close; reopen.
+// History: set before; set big (exactly MAX_VALUE_LENGTH); set after; remove gone; set widest (the largest
+// record the writer can produce: 'E' with a MAX_KEY_LENGTH key and a MAX_VALUE_LENGTH value); set last;
+// clean close; reopen.
 // No compaction may run in between (the snapshot reader bounds valLen alone and is not affected), hence
 // synchronous compaction with a log-size threshold that is never reached. With the default config the same
 // happens whenever the process closes before the 30 s background compaction got to the log.
 //
-// Needs ~350 MiB RAM and ~100 MiB of disk under $TMPDIR (default /tmp); everything is removed at the end.
+// Needs ~350 MiB RAM and ~200 MiB of disk under $TMPDIR (default /tmp); everything is removed at the end.
 #include <iora/storage/kvstore.hpp>
 #include <chrono>
 #include <cstdio>
@@ -38,6 +40,7 @@ int main()
   cfg.enableBackgroundCompaction = false;                       // no compaction thread ...
   cfg.maxLogSizeBytes = std::numeric_limits<uint32_t>::max();   // ... and no synchronous compaction either
 
+  const std::string widestKey(MAX_KEY_LENGTH, 'w');
   std::uintmax_t logSizeAtClose = 0;
   {
     std::vector<std::uint8_t> big(MAX_VALUE_LENGTH);
@@ -51,7 +54,9 @@ int main()
     kv.set("big", big); // accepted: size() == MAX_VALUE_LENGTH
     kv.setString("after", "A");
     kv.remove("gone"); // a later 'D' record: must stay deleted after reopen
-    if (kv.size() != 3 || !kv.exists("big") || !kv.exists("after"))
+    kv.set(widestKey, big, std::chrono::seconds(3600)); // 'E' record, longest key + longest value
+    kv.setString("last", "L");
+    if (kv.size() != 5 || !kv.exists("big") || !kv.exists("after") || !kv.exists(widestKey))
     {
       std::puts("setup failed");
       fs::remove_all(dir);
@@ -81,8 +86,16 @@ int main()
       defect("key set AFTER the big value is gone after clean close + reopen (replay stopped at the big record)");
     if (kv.exists("gone"))
       defect("key removed AFTER the big value is back after reopen (its 'D' record was cut off)");
-    if (kv.size() != 3)
-      defect("size() == " + std::to_string(kv.size()) + " after reopen, expected 3");
+    auto w = kv.get(widestKey);
+    auto l = kv.getString("last");
+    if (!w || w->size() != MAX_VALUE_LENGTH || w->back() != 0x5A)
+      defect("MAX_KEY_LENGTH key with MAX_VALUE_LENGTH value and a TTL (widest 'E' record) is gone after reopen");
+    else if (!kv.ttl(widestKey).has_value())
+      defect("widest 'E' record lost its TTL");
+    if (!l || *l != "L")
+      defect("last key of the log is gone after clean close + reopen");
+    if (kv.size() != 5)
+      defect("size() == " + std::to_string(kv.size()) + " after reopen, expected 5");
   }
   const auto logSizeAfterReopen = fs::file_size(path + ".log");
   if (logSizeAfterReopen < logSizeAtClose)
